@@ -354,6 +354,28 @@ func (c *ctx) catalogue(n int, prevTs uint64) []mutant {
 		t2 := c.userTx(u, uint32(n), 2_0000_0000, 1000_0000, abort, transaction.Attribute{Type: transaction.ConflictsT, Value: &transaction.Conflicts{Hash: t1.Hash()}})
 		return []*transaction.Transaction{t1, t2}
 	})
+	// the same with the conflict named by the second / third of several
+	// Conflicts attributes (the others name unknown hashes), attributes of
+	// another type in between, and in both orders of the pair within the block
+	withTx("tx-conflicting-pair-named-by-later-attribute", func() []*transaction.Transaction {
+		t1 := c.userTx(u, uint32(n), 1_0000_0000, 1000_0000, abort)
+		cf := func(h util.Uint256) transaction.Attribute {
+			return transaction.Attribute{Type: transaction.ConflictsT, Value: &transaction.Conflicts{Hash: h}}
+		}
+		attrs := []transaction.Attribute{cf(util.Uint256{0xc6, byte(n), 1})}
+		if c.r.Intn(2) == 0 {
+			attrs = append(attrs, transaction.Attribute{Type: transaction.NotValidBeforeT, Value: &transaction.NotValidBefore{Height: uint32(n - 1)}})
+		}
+		if c.r.Intn(2) == 0 {
+			attrs = append(attrs, cf(util.Uint256{0xc6, byte(n), 2}))
+		}
+		attrs = append(attrs, cf(t1.Hash()))
+		t2 := c.userTx(u, uint32(n), 3_0000_0000, 1000_0000, abort, attrs...)
+		if c.r.Intn(2) == 0 {
+			return []*transaction.Transaction{t2, t1}
+		}
+		return []*transaction.Transaction{t1, t2}
+	})
 	withTx("tx-already-on-chain", func() []*transaction.Transaction {
 		for i := n - 2; i >= 0 && i > n-5; i-- {
 			if txs := c.h.P.Blocks[i].Transactions; len(txs) > 0 {
@@ -506,6 +528,9 @@ func TestCheck(t *testing.T) {
 	run.Assume("single corruptions only; re-signing uses the real validators' keys so that only the semantic check can reject")
 	run.Assume("mutations that yield another valid block (fresh nonce / primary / next consensus with a valid signature, reordering or dropping transactions with a rebuilt signed header) are not corruptions and are not offered")
 	agedConflicts(t, run)
+	for i := 0; i < ev.Pick(4, 24); i++ {
+		consensusChange(t, run, i, i%2 == 1)
+	}
 	nh := ev.Pick(2, 6)
 	nstates := ev.Pick(6, 14)
 	nb := ev.Pick(40, 70)
